@@ -81,14 +81,15 @@ theorem reuse_compatible {s : State} {q : ReqId} {r : Rid} {fit : Fit}
     (hpc : s.ppc = .eval q) (hg : fit.ngpus ≠ 0)
     (hl : lookup s.loaded (s.reqs q).model = some r)
     (hopts : (s.runners r).opts = (s.reqs q).opts) (hping : (s.runners r).pingOk = true)
-    (hopen : (s.runners r).closed = false) (hmu : (s.runners r).refMuHeld = false) :
+    (hopen : (s.runners r).closed = false) (hmu : (s.runners r).locked = false)
+    (hnb : (s.runners r).pingBlock = false) :
     ∃ s3, run Variant.good s [.pLookup fit, .pNeedsReload, .pUse] = some s3 ∧
       (s3.reqs q).gotRunner = some r ∧ s3.nRunners = s.nRunners ∧ s3.loaded = s.loaded ∧ s3.ppc = .idle := by
   have hd : decideLoad s fit q = .reuse r := by unfold decideLoad; simp [hl]
   have h1 : step Variant.good s (.pLookup fit) = some { s with ppc := .needsReload q r } := by
     simp only [step, hpc, hg, hd]; rfl
   have h2 : step Variant.good { s with ppc := .needsReload q r } .pNeedsReload = some { s with ppc := .use q r } := by
-    simp only [step, hmu, hopen, hopts, hping]; simp
+    simp only [step, hmu, hopen, hopts, hping, hnb]; simp
   have h3 : ∃ s3, step Variant.good { s with ppc := .use q r } .pUse = some s3 ∧
       (s3.reqs q).gotRunner = some r ∧ s3.nRunners = s.nRunners ∧ s3.loaded = s.loaded ∧ s3.ppc = .idle := by
     simp only [step, hmu, hopen, Variant.good]
@@ -99,13 +100,15 @@ theorem reuse_compatible {s : State} {q : ReqId} {r : Rid} {fit : Fit}
 /-- a request with different options (or a failed health check) makes the scheduler expire that
     runner rather than hand it out … -/
 theorem incompatible_expires {v : Variant} {s s' : State} {q : ReqId} {r : Rid}
-    (hpc : s.ppc = .needsReload q r) (hmu : (s.runners r).refMuHeld = false)
-    (hbad : (s.runners r).opts ≠ (s.reqs q).opts ∨ (s.runners r).pingOk = false)
+    (hpc : s.ppc = .needsReload q r) (hmu : (s.runners r).locked = false)
+    (hbad : (s.runners r).opts ≠ (s.reqs q).opts ∨
+            ((s.runners r).pingOk = false ∧ (s.runners r).pingBlock = false))
     (hs : step v s .pNeedsReload = some s') : s'.ppc = .expire q r := by
   simp only [step, hpc, hmu] at hs
-  rcases hbad with h | h
+  rcases hbad with h | ⟨h1, h2⟩
   · simp [h] at hs; rw [← hs]
-  · simp [h] at hs; rw [← hs]
+  · simp [h1, h2] at hs
+    rw [← hs]
 
 /-- … and a runner that is started is started with the options of the request it is started for -/
 theorem started_with_request_options {v : Variant} {s s' : State} {q : ReqId}
